@@ -157,6 +157,9 @@ func (g *G) funcHeader() *am.Fun {
 		f.RetAttrs = []string{g.pick("frattr", []string{"zeroext", "signext", "noundef", "inreg"})}
 	} else if f.Ret.K == am.Ptr && g.chance("fretattrp", 1, 5) {
 		f.RetAttrs = []string{g.pick("frattrp", []string{"nonnull", "noalias", "noundef", "dereferenceable(8)", "dereferenceable_or_null(8)", "align 4"})}
+		if f.RetAttrs[0] == "align 4" && g.off("retattr-align") {
+			f.RetAttrs = nil
+		}
 	}
 	f.UnnamedAddr = g.pick("fua", []string{"", "", "", "unnamed_addr", "local_unnamed_addr"})
 	if g.chance("faddrspace", 1, 10) && !g.off("func-addrspace") {
@@ -493,6 +496,9 @@ func (g *G) metadata() {
 		}
 		for _, b := range f.Blocks {
 			for _, in := range append(append([]*am.Inst{}, b.Insts...), b.Term) {
+				if in.Op == "freeze" && g.cfg.Off["freeze-metadata"] {
+					continue // counted when the attachment would have been drawn
+				}
 				if g.chance("iatt", 1, 8) {
 					in.MD = append(in.MD, att())
 					if g.chance("iatt2", 1, 3) {
